@@ -305,6 +305,10 @@ int ares_init_options(ares_channel_t           **channelptr,
     goto done;
   }
 
+  /* Default socket functions, the system configuration needs the interface
+   * name/index conversion to accept link-local servers */
+  ares_set_socket_functions_def(channel);
+
   /* Initialize configuration by each of the four sources, from highest
    * precedence to lowest.
    */
@@ -345,8 +349,6 @@ int ares_init_options(ares_channel_t           **channelptr,
                    ares_strerror(status)));
     goto done;
   }
-
-  ares_set_socket_functions_def(channel);
 
   /* Initialize the event thread */
   if (channel->optmask & ARES_OPT_EVENT_THREAD) {
